@@ -22,6 +22,9 @@ This file is part of libECBUFR.
 #include <stdio.h>
 #include <stdlib.h>
 #include "bufr_linklist.h"
+#ifdef LIBECBUFR_VERIF
+#include "bufr_array.h"
+#endif
 #include "private/gcmemory.h"
 #include "config.h"
 
@@ -51,6 +54,9 @@ LinkedList *lst_newlist(void)
    
    tmp = (LinkedList *) malloc ( sizeof(LinkedList));
    assert( tmp );
+#ifdef LIBECBUFR_VERIF
+   bufr_verif_live[BUFR_VK_LIST]++;
+#endif
    tmp->last = tmp->first = NULL;
    tmp->nb_node = 0; /* indique le nombre de noeud dans la liste */
    tmp->name = NULL;
@@ -96,6 +102,9 @@ ListNode * lst_newnode(void *data)
       }
 #endif
 
+#ifdef LIBECBUFR_VERIF
+   bufr_verif_live[BUFR_VK_LISTNODE]++;
+#endif
    tmp->data = data;
    tmp->next = NULL;
    tmp->prev = NULL;
@@ -646,6 +655,9 @@ void lst_dellist( LinkedList *clst )
       free( clst->name );
 
    free( clst );
+#ifdef LIBECBUFR_VERIF
+   bufr_verif_live[BUFR_VK_LIST]--;
+#endif
    }
 
 /**************************************************************************
@@ -668,6 +680,9 @@ void lst_dellist( LinkedList *clst )
 --------------------------------------------------------------------------*/
 void lst_delnode(ListNode *tmp)
    {
+#ifdef LIBECBUFR_VERIF
+   bufr_verif_live[BUFR_VK_LISTNODE]--;
+#endif
    if (tmp->name)
       {
       free( tmp->name );
